@@ -6,6 +6,10 @@ ids = [json.loads(l)['id'] for l in open(f'{V}/properties.jsonl')]
 hook_commits = ["d6c2605", "7556b51"]
 
 CLAIMED = {
+ "C12": dict(engine="E2 corpus", technique="proptest-driven generation of library type expressions x generated values; oracle = serde_json output in the swc-parsed type, witnesses deserialise, dependencies == type arguments",
+   text="Type expressions over the supported std library types (NonZero*, paths, network addresses, Option/Result/Vec/slices/str, arrays, tuples of arity 1..10, sets, maps with every key kind incl. wrapped unit-enum keys, ranges, smart pointers and locks) composed to depth 3 are placed in generated wrapper types and compiled; serialised values must inhabit the reported type, witnesses of the reported type must deserialise (where no leaf parses its string), dependencies() must equal the user types the declaration mentions; array lengths 0..=65 are checked for the tuple/Array switch-over at 64.",
+   note="Feature-gated third-party crates are not exercised in the quick tier. PhantomData and Weak are listed known findings.",
+   ref="DESIGN.md §4 C12"),
  "C06": dict(engine="E3 histories", technique="model-based testing: proptest-generated export histories interpreted against a reference model (set of exported definitions per canonical directory + reference file combiner), invariant checked after every step, failing histories shrunk step-wise",
    text="Generated universes of types that share files and depend on each other are compiled once; per universe 60 (quick) / 400 (thorough) generated histories over export / export_all / export_all_to with 4 TS_RS_EXPORT_DIR settings, 8 spellings of two directories and 4 initial directory states run through the real functions (registry reset hook between histories); after every call the directory tree must equal the tree the model predicts.",
    note="The model trusts export_to_string() of a single type as the standalone text of its declaration and the reference combiner (oracles::combine); placements do not leave the base directory. The reset hook only clears the registry.",
